@@ -1,6 +1,7 @@
 package harness
 
 import (
+	"os"
 	"encoding/json"
 	"fmt"
 	"math/rand"
@@ -366,7 +367,23 @@ func clip(s string, n int) string {
 	return s
 }
 
+// debugRaces appends the race reports of the runs so far to the file named by VERIF_DEBUG_RACES
+// (diagnostic aid used with VERIF_FORCE_RACE=1 to survey unsynchronised state in the worker pools).
+func debugRaces() {
+	f := os.Getenv("VERIF_DEBUG_RACES")
+	if f == "" {
+		return
+	}
+	for _, r := range newRaceReports() {
+		if fh, err := os.OpenFile(f, os.O_APPEND|os.O_CREATE|os.O_WRONLY, 0644); err == nil {
+			fmt.Fprintf(fh, "%s <-> %s\n", r.a, r.b)
+			fh.Close()
+		}
+	}
+}
+
 func checkC09(t *testing.T, sc *Scenario) *Verdict {
+	defer debugRaces()
 	v := &Verdict{OK: true}
 	if len(sc.Scheds) < 2 {
 		v.Invalid = true
